@@ -80,7 +80,10 @@ Log(a) == /\ last' = a /\ prev' = abs /\ steps' = steps + 1
 \* ("none": the broker applies its default), with or without user name and password, either of them of length zero;
 \* and a zero-length client identifier, acceptable with CleanSession 1: the broker assigns an identifier nobody else
 \* has (3.1.3-6), which the caller expresses by a key k no other connection uses
-ConnectForms == {"plain", "ka0", "nouser", "emptyuser", "emptypass", "userpass", "ka0-nouser", "ka0-emptyuser", "ka0-emptypass"}
+\* "cutN": the bytes of the plain form reach the broker in two segments, cut after N bytes (from the end if N < 0):
+\* inside the fixed header, the protocol name, the client identifier, before the last byte
+ConnectForms == {"plain", "ka0", "nouser", "emptyuser", "emptypass", "userpass", "ka0-nouser", "ka0-emptyuser", "ka0-emptypass",
+                 "cut1", "cut3", "cut9", "cut13", "cut-1", "userpass-cut-3"}
 AnonForms == {"anon", "anon-nouser", "anon-emptyuser", "anon-ka0-emptyuser"}
 ConnectF(c, k, clean, will, form) ==
   /\ form \in ConnectForms \cup AnonForms /\ (form \in AnonForms => clean)
